@@ -499,7 +499,10 @@ type Features struct {
 	CountNullInRow bool `json:"count_null_in_row"`
 	// NSeries: series passing the tag tests of the query
 	NSeries int    `json:"nseries"`
-	HasTie  bool   `json:"has_tie"` // plain selection: two rows of one group share a timestamp
+	// NullAggField: aggregate query: some stored row inside the time range, of a series passing the tag tests, has no
+	// value for one of the aggregated fields (the store reads such rows and drops them piece by piece)
+	NullAggField bool   `json:"null_agg_field"`
+	HasTie       bool   `json:"has_tie"` // plain selection: two rows of one group share a timestamp
 	Layout  string `json:"layout"`  // inorder | ooo (how the data set was written)
 }
 
@@ -514,6 +517,22 @@ func tagOnly(p *Pred) bool {
 		return false
 	}
 	return true
+}
+
+// evalTagPart: can the series pass the predicate for some row? (field tests are taken as satisfiable)
+func evalTagPart(p *Pred, s *Series) bool {
+	if p == nil {
+		return true
+	}
+	switch p.Op {
+	case "and":
+		return evalTagPart(p.A, s) && evalTagPart(p.B, s)
+	case "or":
+		return evalTagPart(p.A, s) || evalTagPart(p.B, s)
+	case "field":
+		return true
+	}
+	return evalPred(p, s, &Row{V: make([]*int64, len(fieldNames))})
 }
 
 func features(ds *Dataset, q *Query) Features {
@@ -540,6 +559,26 @@ func features(ds *Dataset, q *Query) Features {
 	f.Layout = "ooo"
 	if ds.InOrder {
 		f.Layout = "inorder"
+	}
+	if q.Kind == "agg" {
+		lo, hi := q.bounds()
+		for i := range ds.Series {
+			sr := &ds.Series[i]
+			if !evalTagPart(q.Pred, sr) {
+				continue
+			}
+			for ri := range sr.Rows {
+				r := &sr.Rows[ri]
+				if r.T < lo || r.T > hi {
+					continue
+				}
+				for _, a := range q.Aggs {
+					if r.V[a.F] == nil {
+						f.NullAggField = true
+					}
+				}
+			}
+		}
 	}
 	if q.Kind == "plain" {
 		for _, s := range a {
